@@ -68,6 +68,9 @@ def _matrix(ctx, c, f, pdu, klass):
         dest = _dest_before(x)
         fa = facts_at(x)
         ent = {"ctor": norm(k.func) if k is not None else None, "originator": norm(k.args[0]) if k is not None and k.args else None, "dest": dest, "facts": fa, "call": x}
+        KA = "%s.pduDestination.addrType" % pdu
+        # how the message arrived (unicast to us / directed broadcast) under which this send is reachable
+        ent["arrival"] = sorted(kind for kind in ("localStationAddr", "localBroadcastAddr") if ev.may_hold(fa, {KA: at[kind], "isinstance:%s" % pdu: klass}))
         if loops and norm(loops[0].iter) == "self.bbmdBDT":
             lv = norm(loops[0].target)
             ent["self"] = ev.may_hold(fa, {"%s != self.bbmdAddress" % lv: False, "%s == self.bbmdAddress" % lv: True, "isinstance:%s" % pdu: klass})
@@ -124,6 +127,8 @@ def r1(ctx):
     ctx.check("BBMD.Forwarded:not-to-peers", not mx["bdt"], where(m, f), "a forwarded NPDU must never be forwarded to BDT peers again (broadcast storm)")
     ok = len(mx["fdt"]) == 1 and mx["fdt"][0]["sender"] and mx["fdt"][0]["others"] and mx["fdt"][0]["dest"] == "fdte.fdAddress" and mx["fdt"][0]["originator"] == "%s.bvlciAddress" % pdu
     ctx.check("BBMD.Forwarded:foreign", ok, where(m, f), "forwarded to every registered foreign device with the original originator")
+    ctx.check("BBMD.Forwarded:foreign-any-arrival", len(mx["fdt"]) == 1 and mx["fdt"][0]["arrival"] == ["localBroadcastAddr", "localStationAddr"], where(m, f),
+              "foreign devices get a forwarded NPDU whether it arrived as unicast (two-hop) or as directed broadcast (one-hop): found only for %r" % [e["arrival"] for e in mx["fdt"]])
     ok = len(mx["local"]) == 1 and mx["local"][0]["when"] == [("localStationAddr", True)] and mx["local"][0]["originator"] == "%s.bvlciAddress" % pdu
     ctx.check("BBMD.Forwarded:local-rebroadcast", ok, where(m, f),
               "re-broadcast on the local subnet exactly when it arrived as a unicast and this BBMD is in its own BDT (two-hop distribution): %r" % [e.get("when") for e in mx["local"]])
@@ -138,6 +143,7 @@ def r1(ctx):
     ctx.check("BBMD.Distribute:bdt", ok, where(m, f), "sent to every BDT entry: local broadcast for its own entry, directed broadcast for the peers, originator = the foreign device")
     ok = len(mx["fdt"]) == 1 and not mx["fdt"][0]["sender"] and mx["fdt"][0]["others"] and mx["fdt"][0]["dest"] == "fdte.fdAddress"
     ctx.check("BBMD.Distribute:foreign-except-sender", ok, where(m, f), "forwarded to every foreign device except the one that sent it")
+    ctx.check("BBMD.Distribute:any-arrival", all(e["arrival"] == ["localBroadcastAddr", "localStationAddr"] for e in mx["fdt"] + mx["bdt"]), where(m, f), "distribution does not depend on how the request was addressed")
     # ---- own broadcast
     ip = ind.args.args[1].arg
     ev = Evaluator(prog, m, c)
@@ -357,6 +363,8 @@ def r4(ctx):
         if ok:
             okv, cx = same_function(ev, d, grid(**{"self.bbmdTimeToLive": [1, 30, 300]}), lambda e: e["self.bbmdTimeToLive"] + 30)
             ok = okv
+    ctx.check("Foreign._start_track_registration:re-arms-on-every-ack", len(it) == 1 and not [z for z in facts_at(it[0])], where(m, s or c.node),
+              "every acknowledgement pushes the expiry out again: the install must not depend on whether the timer is already running (%s)" % ([repr(z) for z in facts_at(it[0])] if it else "no install"))
     ctx.check("Foreign._start_track_registration:ttl+30", ok, where(m, s or c.node), "the registration is considered expired TTL + 30 s after the last acknowledgement (the BBMD's grace period)")
     x = c.methods.get("_registration_expired")
     st = [s_ for tg, s_ in stores_in(x) if is_self_attr(tg, "registrationStatus")] if x else []
@@ -387,3 +395,21 @@ def r4(ctx):
     it = [y for y in calls_in(r) if norm(y.func) == "self.install_task"]
     ok = ok and len(it) == 1
     ctx.check("Foreign.register", ok, where(m, r), "register refuses a non-positive TTL, stores address and TTL and schedules the first registration")
+    # typestate of registrationStatus: every value a method parks it at, and that confirmation() then ignores results in,
+    # must be left again by register() - otherwise a later registration can never be acknowledged
+    cf = c.methods["confirmation"]
+    cp = cf.args.args[1].arg
+    st_c = [s_ for tg, s_ in stores_in(cf) if is_self_attr(tg, "registrationStatus")]
+    parked = set()
+    for mname, mm in c.methods.items():
+        for tg, s_ in stores_in(mm):
+            if is_self_attr(tg, "registrationStatus"):
+                v = prog.try_const(m, s_.value)
+                if isinstance(v, int) and st_c and not ev.may_hold(facts_at(st_c[0]), {"self.registrationStatus": v, "%s.pduSource != self.bbmdAddress" % cp: False, "%s.pduSource == self.bbmdAddress" % cp: True, "isinstance:%s" % cp: "Result"}):
+                    parked.add(v)
+    rs = [s_ for tg, s_ in stores_in(r) if is_self_attr(tg, "registrationStatus") and not [z for z in facts_at(s_) if z.origin == "arm"]]
+    leaves = bool(rs) and all(isinstance(prog.try_const(m, s_.value), int) and prog.try_const(m, s_.value) not in parked and prog.try_const(m, s_.value) != 0 for s_ in rs)
+    ctx.check("Foreign.register:leaves-ignoring-state", leaves or not parked, where(m, r),
+              "registrationStatus values %s make confirmation() ignore every Result; register() does not move the status out of them, so after unregister() a new registration is never seen as acknowledged and the device stays deaf and mute"
+              % sorted(parked), facts={"ignoring_states": sorted(parked)})
+    ctx.count("result-ignoring status values", len(parked))
